@@ -33,7 +33,7 @@ TaintedT == [hr |-> Fresh, model |-> <<>>, bmodel |-> <<>>, oh |-> 0, taint |-> 
 NoCur == [on |-> FALSE, valid |-> FALSE, ref |-> <<>>]
 Stat0 == [events |-> 0, traces |-> 0, ins |-> 0, upd |-> 0, noop |-> 0, del |-> 0, nodel |-> 0, get |-> 0, iter |-> 0,
           clone |-> 0, cursor |-> 0, cwalk |-> 0, root |-> 0, rootdirty |-> 0, load |-> 0, grow |-> 0, shrink |-> 0,
-          skipped |-> 0, wexact |-> 0, wless |-> 0, wother |-> 0, ldexact |-> 0, ldother |-> 0, maxheight |-> 0, robs |-> 0, obs |-> 0]
+          froot |-> 0, skipped |-> 0, wexact |-> 0, wless |-> 0, wother |-> 0, ldexact |-> 0, ldother |-> 0, maxheight |-> 0, robs |-> 0, obs |-> 0]
 
 TInit == /\ l = 1 /\ cfg = NoCfg
          /\ th = [h \in HS |-> DeadT] /\ cur = [h \in HS |-> NoCur]
@@ -136,7 +136,7 @@ RootIntrinsic(e) ==
      \cup (IF shaped /\ e.rh # ruleH THEN {V("C04", "persisted height differs from min(max layer, floor(log_bf(size-1)))", e.h)} ELSE {})
      \cup (IF shaped /\ e.rh = ruleH /\ e.link # Canon(es, Layer, ruleH) THEN {V("C04", "persisted tree is not the canonical tree of its entries", e.h)} ELSE {})
 
-ActsOnHandle == Ev.op \in {"ins", "del", "get", "iter", "size", "clone", "cursor", "root", "drop"}
+ActsOnHandle == Ev.op \in {"ins", "del", "get", "iter", "size", "clone", "cursor", "root", "froot", "drop"}
 ActorTainted == ActsOnHandle /\ th[Ev.h].taint
 Good(op) == Is(op) /\ ~bad /\ ~ActorTainted
 
@@ -276,6 +276,11 @@ TRoot == /\ Good("root")
                            vmiss \cup v04 \cup v09 \cup v05 \cup v08 \cup v13, s3)
                ELSE Finish(th, cur, rts, names, vfail, s1)
 
+(* a MakeRoot during which the harness made Store calls fail, and which returned the error: the handle and every other handle and
+   root are as they were (they are all re-observed, and the node objects in the shared cache re-examined, as after every call) *)
+TFRoot == /\ Good("froot")
+          /\ Finish(th, cur, rts, names, {}, Bump(stat, "froot"))
+
 TLoad == /\ Good("load")
          /\ IF ~HasRoot(Ev.r) \/ ~RootOf(Ev.r).ok
             THEN \* the root was already reported at the time it was made (or was made by a tainted handle): the tree loaded from
@@ -306,7 +311,7 @@ TAdopt == /\ Good("adopt")
 TDrop == /\ Good("drop")
          /\ Finish([th EXCEPT ![Ev.h] = DeadT], cur, rts, names, {}, stat)
 
-TNext == TReset \/ TSkip \/ TTainted \/ TNew \/ TIns \/ TDel \/ TGet \/ TIter \/ TSize \/ TClone \/ TCursor \/ TCwalk \/ TRoot \/ TLoad \/ TDrop \/ TAdopt
+TNext == TReset \/ TSkip \/ TTainted \/ TNew \/ TIns \/ TDel \/ TGet \/ TIter \/ TSize \/ TClone \/ TCursor \/ TCwalk \/ TRoot \/ TFRoot \/ TLoad \/ TDrop \/ TAdopt
 TSpec == TInit /\ [][TNext]_tvars
 
 Report == (l = Len(Trace) + 1) => PrintT(<<"REPORT", ToJson([viol |-> viol, stat |-> stat, consumed |-> l - 1])>>)
